@@ -311,6 +311,8 @@ class Ev:
             return t
         if "f" in e:
             name = e.get("name", str(e["f"]))
+            if e.get("adt") in self.prog.newtypes:
+                return t        # a crate-local newtype `struct N(T)` is its content
             if t[0] == "agg":
                 ops = t[2]
                 names = t[3] if len(t) > 3 else None
@@ -532,6 +534,8 @@ class Ev:
             ak = rv["ak"]
             ops = tuple(self.op(o, at) for o in rv["ops"])
             if ak == "adt":
+                if rv["adt"] in self.prog.newtypes and len(ops) == 1:
+                    return ops[0]
                 adt = self.prog.adts.get(rv["adt"])
                 if adt is not None and adt["kind"] == "enum" and not rv["ops"] and all(not v["fields"] for v in adt["variants"]):
                     return ("enum", rv["adt"], rv["vname"])
@@ -783,7 +787,7 @@ class Ev:
                             base = (src["l"], ())
                         else:
                             continue
-                    fields = tuple(e.get("name", str(e["f"])) for e in src.get("p", []) if isinstance(e, dict) and "f" in e)
+                    fields = tuple(e.get("name", str(e["f"])) for e in src.get("p", []) if isinstance(e, dict) and "f" in e and e.get("adt") not in self.prog.newtypes)
                     newp = (base[0], base[1] + fields)
                     d = st["dst"]["l"]
                     if paths.get(d) != newp and d not in paths:
@@ -812,7 +816,7 @@ class Ev:
         base = self.access_paths().get(pl["l"])
         if base is None:
             base = (pl["l"], ())
-        fields = tuple(e.get("name", str(e["f"])) for e in pl.get("p", []) if isinstance(e, dict) and "f" in e)
+        fields = tuple(e.get("name", str(e["f"])) for e in pl.get("p", []) if isinstance(e, dict) and "f" in e and e.get("adt") not in self.prog.newtypes)
         return (base[0], base[1] + fields)
 
     def events_on(self, root, fields=()):
